@@ -66,6 +66,36 @@ def twoBody4Ok (tol : Rat) (E : Edges) (p q r s : Nat) : Bool :=
     && C04.iaddOk tol [] (mulOp .qubit (mulOp .qubit (smul eighthQ Apq) Ars) poly7)
   | _, _ => true
 
+/-- the selection of `_two_body` for three distinct indices: hopping between `x` and `y`, spectator `z`, phase -/
+def threeIdx (p q r s : Nat) : Nat × Nat × Nat × GQ :=
+  if p == r then (q, s, p, GQ.I)
+  else if p == s then (q, r, p, -GQ.I)
+  else if q == r then (p, s, q, -GQ.I)
+  else (p, r, q, GQ.I)
+
+/-- were all the `+` / `-` and the final accumulation of `_two_body` (three distinct indices) exact? -/
+def twoBody3Ok (tol : Rat) (E : Edges) (p q r s : Nat) : Bool :=
+  let x := (threeIdx p q r s).1
+  let y := (threeIdx p q r s).2.1
+  let z := (threeIdx p q r s).2.2.1
+  let ph := (threeIdx p q r s).2.2.2
+  match edgeA tol E x y with
+  | none => true
+  | some A =>
+    let h := addOp tol (mulOp .qubit A (edgeB tol E y)) (mulOp .qubit (edgeB tol E x) A)
+    C04.iaddOk tol (mulOp .qubit A (edgeB tol E y)) (mulOp .qubit (edgeB tol E x) A)
+    && numberTermOk tol E z
+    && C04.iaddOk tol [] (smul quarterQ (mulOp .qubit (smul ph h) (subOp tol one (edgeB tol E z))))
+
+/-- the operator `_two_body` accumulates for two distinct indices -/
+def twoBody2Pre (tol : Rat) (E : Edges) (p q s : Nat) : Op :=
+  let x := if p == s then subOp tol one (edgeB tol E p) else smul (-1) (subOp tol one (edgeB tol E p))
+  smul quarterQ (mulOp .qubit x (subOp tol one (edgeB tol E q)))
+
+/-- were all the `-` and the final accumulation of `_two_body` (two distinct indices) exact? -/
+def twoBody2Ok (tol : Rat) (E : Edges) (p q s : Nat) : Bool :=
+  numberTermOk tol E p && numberTermOk tol E q && C04.iaddOk tol [] (twoBody2Pre tol E p q s)
+
 end Bksf
 end Model
 end OFV
